@@ -274,6 +274,33 @@ func c14Reentrant(c *Ctx) {
 			}
 		}
 	}
+	// the same thing spelled without a call: a Lock/RLock of a path that is already held at that point (this is also
+	// the shape a re-entrant helper takes in the inlined view, see inline.go)
+	for _, fn := range c.OurFuncs() {
+		if c.isMockFile(fn.Pos()) {
+			continue
+		}
+		var ls *Lockset
+		for _, ci := range callInstrs(fn) {
+			if _, isDefer := ci.(*ssa.Defer); isDefer {
+				continue
+			}
+			k, recv := lockOp(ci.Common())
+			if k != "lock" && k != "rlock" {
+				continue
+			}
+			p := pathOf(recv)
+			if p == "" {
+				continue
+			}
+			if ls == nil {
+				ls = computeLockset(fn)
+			}
+			if m, held := ls.At(ci)[p]; held && m != modeNone {
+				c.Check(rule, fmt.Sprintf("%s|%s:%s|while-held", fnName(fn), k, p), false, ci.Pos(), "lock acquired again on a path that is already held in this function (sync mutexes are not re-entrant; a queued writer makes even a second RLock deadlock)")
+			}
+		}
+	}
 	c.CheckConst(rule, "matcher|calls-under-lock-seen", n >= 3, 0, fmt.Sprintf("%d calls on a locked object examined", n))
 }
 
